@@ -79,11 +79,40 @@ def _hostile_sig(name):
 LONG_SCENARIOS = {"id-counter-wrap": 600, "many-threads-span-ids": 240}
 
 
+PLAIN_DIR = "/verif/harness-plain"
+_plain_built = {}
+
+
+def build_plain(core):
+    """the public-API-only scenarios run against fastrace built with `enable` alone (no `verif`):
+    an own workspace, so that feature unification cannot switch the instrumentation on"""
+    if "ok" not in _plain_built:
+        r = core.sh(["cargo", "build", "-q"], cwd=PLAIN_DIR, timeout=1500)
+        _plain_built["ok"] = r.returncode == 0
+        _plain_built["err"] = r.stdout[-300:]
+    return _plain_built["ok"], _plain_built["err"]
+
+
 def run_hostile(core, prop, work, names, release=False):
     import json, subprocess, time
     out = []
     procs = []
+    if any(n.startswith("plain:") for n in names):
+        ok, err = build_plain(core)
+        if not ok:
+            out.append(("plain-build", "build failed", None, "/dev/null"))
+            names = [n for n in names if not n.startswith("plain:")]
+    if release:
+        names = [n for n in names if not n.startswith("plain:")]
     for nme in names:
+        if nme.startswith("plain:"):
+            o = os.path.join(work, "plain-%s.json" % nme[6:])
+            if os.path.exists(o):
+                os.unlink(o)
+            log = open(o + ".log", "w")
+            p = subprocess.Popen([os.path.join(PLAIN_DIR, "target", "debug", "plain"), "--scenario", nme[6:], "--out", o], stdout=log, stderr=subprocess.STDOUT, env=core.ENV)
+            procs.append((nme, p, o, time.time(), log))
+            continue
         o = os.path.join(work, "hostile-%s%s.json" % (nme, "-rel" if release else ""))
         if os.path.exists(o):
             os.unlink(o)
@@ -141,7 +170,7 @@ def c07(prop, tier, seed, core):
     m["violations"].extend(extra_viol)
     # hostile scenarios, one process each
     # also 2^32 span ids on one thread (the per-thread counter wraps; about ten seconds)
-    add_hostile(m, core, prop, work, tier, HOSTILE + ["id-counter-wrap", "deep-backlog", "deep-backlog-cancel", "set-reporter-vs-cycles"], known_sigs)
+    add_hostile(m, core, prop, work, tier, HOSTILE + ["id-counter-wrap", "deep-backlog", "deep-backlog-cancel", "set-reporter-vs-cycles", "plain:reporter-panicked-earlier"], known_sigs)
     if tier == "thorough":
         add_sanitizers(m, core, prop, work, seed)
     m["rule"] = (core.RULES["progsim"] + " C07 adds: programs from a hostile profile (40% no-op parents, empty parent sets, 25% unsampled roots, property "
@@ -201,6 +230,9 @@ def add_hostile(m, core, prop, work, tier, names, known_sigs):
     scen = []
     calls = 0
     for nme, rc, doc, logp in hres:
+        if nme == "plain-build":
+            m["inconclusive"].append("the harness for the build without `verif` failed to build: " + _plain_built.get("err", ""))
+            continue
         entry = {"scenario": nme, "status": rc if not isinstance(rc, int) or rc != 0 else "ok"}
         if doc and doc.get("ok"):
             calls += doc.get("calls", 0)
@@ -243,7 +275,7 @@ def c01(prop, tier, seed, core):
         add_tsan_quick(m, core, prop, os.path.join(core.WORK, prop), seed)
         m["rule"] = core.RULES["progsim"] + " The quick tier also runs the stress engine (4500 jobs, two configurations) in a ThreadSanitizer build with an instrumented standard library; a report is a violation."
     # the background collector on its own: a delayed last command followed by silence
-    add_hostile(m, core, prop, os.path.join(core.WORK, prop), tier, ["lone-late-send", "reconfigure-interval", "flush-delivers-what-finished-before-it"], [e["signature"] for e in core.known_for(prop)])
+    add_hostile(m, core, prop, os.path.join(core.WORK, prop), tier, ["lone-late-send", "reconfigure-interval", "flush-delivers-what-finished-before-it", "plain:slow-report-overruns-interval", "plain:threads-exactly-once"], [e["signature"] for e in core.known_for(prop)])
     m["rule"] += (" One separate process: 36 rounds in which a thread's last command is held up for 0.5-9.5 ms right before it enters the queue, the thread exits, "
                   "and nothing calls into the library afterwards; the background collector (2 ms interval) must report the span. Another process configures a 1 h report interval, then re-configures 5 ms and waits for "
                   "background delivery.")
@@ -275,7 +307,7 @@ def c04(prop, tier, seed, core):
     work = os.path.join(core.WORK, prop)
     known_sigs = [e["signature"] for e in core.known_for(prop)]
     # a cancel parked behind more forced commands than the ring has slots (one process)
-    add_hostile(m, core, prop, work, tier, ["deep-backlog-cancel", "overlapping-flushes-cancelable", "tls-cancel-in-destructor-cancelable"], known_sigs)
+    add_hostile(m, core, prop, work, tier, ["deep-backlog-cancel", "overlapping-flushes-cancelable", "tls-cancel-in-destructor-cancelable", "plain:cancel-config-matrix"], known_sigs)
     m["rule"] = core.RULES["progsim"] + (" One separate process parks 10300 cancels of a bystander trace and then the cancel of a victim trace behind a full ring "
                                           "(more forced commands than the ring has slots), lets the collector catch up and finishes the roots: nothing of either trace may be delivered, a later trace must be complete. Another process keeps a flush() inside a slow report() while a root is cancelled, a second "
                                           "flush() starts on another thread and late children finish: nothing of the cancelled trace may come out, a bystander trace must come out whole, once. A third one cancels and drops roots inside user thread-local destructors (every initialisation order).")
@@ -332,7 +364,7 @@ def c08(prop, tier, seed, core):
     work = os.path.join(core.WORK, prop)
     known_sigs = [e["signature"] for e in core.known_for(prop)]
     # retained state measured from outside: live heap bytes of the process over identical rounds
-    add_hostile(m, core, prop, work, tier, ["steady-state-heap", "steady-state-heap-cancelable", "deep-backlog"], known_sigs)
+    add_hostile(m, core, prop, work, tier, ["steady-state-heap", "steady-state-heap-cancelable", "deep-backlog", "plain:thread-churn-heap"], known_sigs)
     m["rule"] = core.RULES["progsim"] + (" Every twelfth program contains a queue-full episode. Two separate processes (one per configuration) run 45 identical rounds of 20 finished "
                                           "traces each (late children and late attachments after the root, cancels, children on other threads, unsampled traces) under a counting "
                                           "allocator: the live heap of the process must not keep growing from round to round (whatever container would hold the state).")
